@@ -169,6 +169,13 @@ func (p *Protocol) Start() {
 
 		if p.muxerDoneChan == nil {
 			p.SendError(errors.New("could not register protocol with muxer"))
+			// None of the goroutines below will run, so nothing else would ever
+			// close these: mark the protocol as finished, otherwise whoever waits
+			// on DoneChan() (e.g. the cleanup goroutines of the clients/servers)
+			// would wait forever
+			close(p.recvDoneChan)
+			close(p.sendDoneChan)
+			close(p.doneChan)
 			return
 		}
 
